@@ -7,7 +7,7 @@
 use std::io::{BufRead, Write};
 use std::panic::{AssertUnwindSafe, catch_unwind};
 use std::sync::atomic::{AtomicU64, Ordering};
-use std::sync::Arc;
+use std::sync::{Arc, Mutex};
 
 #[derive(Debug, Clone)]
 pub struct Op {
@@ -100,9 +100,13 @@ pub fn run<S>(
         .ok()
         .and_then(|s| s.parse().ok())
         .unwrap_or(20_000);
+    // all output goes through one mutex-protected buffer that the main thread never holds while an operation
+    // runs, so that the watchdog can flush what was written so far and report the hang
+    let out = Arc::new(Mutex::new(std::io::BufWriter::new(std::io::stdout())));
     {
         // watchdog: a case that makes no progress for `limit_ms` is reported as a hang
         let progress = progress.clone();
+        let out = out.clone();
         std::thread::spawn(move || {
             let mut last = 0u64;
             let mut since = std::time::Instant::now();
@@ -114,8 +118,7 @@ pub fn run<S>(
                     since = std::time::Instant::now();
                 } else if cur % 2 == 1 && since.elapsed().as_millis() as u64 > limit_ms {
                     // odd = inside an operation
-                    let out = std::io::stdout();
-                    let mut out = out.lock();
+                    let mut out = out.lock().unwrap_or_else(|e| e.into_inner());
                     let _ = writeln!(out, "! hang");
                     let _ = writeln!(out, "END");
                     let _ = out.flush();
@@ -125,8 +128,6 @@ pub fn run<S>(
         });
     }
     let stdin = std::io::stdin();
-    let stdout = std::io::stdout();
-    let mut out = std::io::BufWriter::new(stdout.lock());
     let mut state: Option<S> = None;
     let mut dead = false;
     let mut idx = 0usize;
@@ -138,15 +139,15 @@ pub fn run<S>(
         }
         if let Some(rest) = line.strip_prefix("CASE") {
             let words: Vec<&str> = rest.split_ascii_whitespace().collect();
-            writeln!(out, "CASE {}", words.first().copied().unwrap_or("")).unwrap();
-            out.flush().unwrap();
+            writeln!(out.lock().unwrap(), "CASE {}", words.first().copied().unwrap_or("")).unwrap();
+            out.lock().unwrap().flush().unwrap();
             let extra = if words.is_empty() { &words[..] } else { &words[1..] };
             dead = false;
             idx = 0;
             match catch_unwind(AssertUnwindSafe(|| new_case(extra))) {
                 Ok(s) => state = Some(s),
                 Err(_) => {
-                    writeln!(out, "! panic init").unwrap();
+                    writeln!(out.lock().unwrap(), "! panic init").unwrap();
                     dead = true;
                     state = None;
                 }
@@ -155,14 +156,14 @@ pub fn run<S>(
         }
         if line == "END" {
             state = None;
-            writeln!(out, "END").unwrap();
+            writeln!(out.lock().unwrap(), "END").unwrap();
             continue;
         }
         if dead {
             continue;
         }
         let Some(op) = parse_op(line) else {
-            writeln!(out, "! badline").unwrap();
+            writeln!(out.lock().unwrap(), "! badline").unwrap();
             continue;
         };
         let Some(st) = state.as_mut() else { continue };
@@ -181,14 +182,14 @@ pub fn run<S>(
                         s.push_str(&v.to_string());
                     }
                 }
-                writeln!(out, "{s}").unwrap();
+                writeln!(out.lock().unwrap(), "{s}").unwrap();
             }
             Err(_) => {
-                writeln!(out, "! panic {idx}").unwrap();
+                writeln!(out.lock().unwrap(), "! panic {idx}").unwrap();
                 dead = true;
             }
         }
         idx += 1;
     }
-    out.flush().unwrap();
+    out.lock().unwrap().flush().unwrap();
 }
